@@ -449,6 +449,8 @@ def job_token_inductive(ctx, jr, N, C, part='C01'):
         for n_ in ('index', 'iter', 'argument', 'in_argument', 'using_quotes', 'in_control', 'found_end', 'found_variable_prefix', 'end_index'):
             if n_ not in cap['fn'].debug: raise NotRecognised('local %r not found in the debug table of parse_next_value' % n_)
         e.stack.clear(); e.loop_entry_hooks.clear()
+        from mirsym import induct
+        induct.LoopFrame(e, cap['fn'], cap['info'], cap['L'], cap['st'], cap['fid']).require(['index', 'iter', 'argument', 'in_argument', 'using_quotes', 'in_control', 'found_variable_prefix'])
         cap['line'] = line_no
         return e, buf, bufv, start, cap
 
@@ -649,6 +651,7 @@ def job_arglist_inductive(ctx, jr, K, control_as_char, pid='C01'):
     e.hooks['parser::parse_next_argument'] = h_scan
     st = State(True, {(0, 'meta'): meta_new(1)})
     fr = induct.capture(e, 'core', 'parser::parse_arguments_with_options', [P(0, 'meta'), bufv, start, control_as_char], st)
+    fr.require(['arguments', 'index'])
     obs = [(fr.st.g, zand(zeq(fr.get(fr.st, 'arguments').len, 0), zeq(fr.get(fr.st, 'index'), start)), 'entry: nothing collected, index = start index')]
     AV = V(e.fresh_int('collected', 0, K), [H.sym_str(e, 'arg%d' % i, 3) for i in range(K)])
     i0 = e.fresh_int('i', 0, 100)
